@@ -189,11 +189,19 @@ func sortedKeys(m map[string]string) []string {
 func testOpts(t *TestSpec) []z.TestOption {
 	var o []z.TestOption
 	if t.OptMsg != nil {
+		// (for every other message: an earlier message option of the other kind on the same test, which the later one replaces)
+		m := *t.OptMsg
+		twice := len(m) > 0 && m[len(m)-1]%2 == 1
 		if t.OptMsgFunc {
-			m := *t.OptMsg
+			if twice {
+				o = append(o, z.Message("replaced by the later MessageFunc"))
+			}
 			o = append(o, z.MessageFunc(func(i *z.ZogIssue, _ z.Ctx) { i.SetMessage(m) }))
 		} else {
-			o = append(o, z.Message(*t.OptMsg))
+			if twice {
+				o = append(o, z.MessageFunc(func(i *z.ZogIssue, _ z.Ctx) { i.SetMessage("replaced by the later Message") }))
+			}
+			o = append(o, z.Message(m))
 		}
 	}
 	if t.OptParams != nil {
